@@ -550,7 +550,13 @@ pub fn rounding_across_days_case() -> BoxedStrategy<Case> {
     (case(), 0usize..16, 0usize..3, proptest::sample::select(vec![U::Day, U::Day, U::Week, U::Month, U::Year]), 0i128..=2, -7_200i128..=7_200)
         .prop_map(|(mut c, ii, oi, largest, days, wiggle)| {
             c.op = [Op::Until, Op::Since, Op::DurRound][oi];
-            let (unit, incs): (U, &[u32]) = if ii % 4 == 3 { (U::Minute, &[2, 5, 10, 15, 20, 30]) } else { (U::Hour, &[2, 3, 4, 6, 8, 12]) };
+            // smallest unit hour / minute with an increment, or day (increment 1..3) under a week-or-larger largest unit
+            let (unit, incs): (U, &[u32]) = match ii % 5 {
+                3 => (U::Minute, &[2, 5, 10, 15, 20, 30]),
+                4 => (U::Day, &[1, 1, 2, 3]),
+                _ => (U::Hour, &[2, 3, 4, 6, 8, 12]),
+            };
+            let largest = if unit == U::Day && largest == U::Day { U::Week } else { largest };
             c.smallest = Some(unit);
             c.inc = incs[ii % incs.len()];
             c.largest = LargestOpt::Unit(largest);
